@@ -3,6 +3,7 @@ CONSTANTS
   P = 5
   NBits = 3
   BoolEnforced = FALSE
+  Unchecked = {}
   RangeChecked = FALSE
 INVARIANTS
   EmitReplay
